@@ -231,6 +231,12 @@ func (t *Type) IsSimpleType() bool {
 
 func ParseType(vt reflect.Type, def string) (*Type, error) {
 	var i int
+
+	/* without a descriptor the parser follows the Go type only, which never ends
+	 * for a recursive map type like `type T map[string]T` (no struct in between) */
+	if def == "" && isRecursiveContainer(vt, nil) {
+		return nil, EType(vt, "recursive container types are not supported by Thrift")
+	}
 	ret, err := doParseType(vt, def, &i, true)
 	if err != nil {
 		return nil, err
@@ -245,6 +251,26 @@ func ParseType(vt reflect.Type, def string) (*Type, error) {
 		}
 	}
 	return ret, nil
+}
+
+// isRecursiveContainer checks if vt contains itself through pointers, slices and maps only.
+// Struct fields are not followed: they have their own descriptors, resolved one by one.
+func isRecursiveContainer(vt reflect.Type, path []reflect.Type) bool {
+	switch vt.Kind() {
+	case reflect.Ptr, reflect.Slice, reflect.Map:
+	default:
+		return false
+	}
+	for _, t := range path {
+		if t == vt {
+			return true
+		}
+	}
+	path = append(path, vt)
+	if vt.Kind() == reflect.Map && isRecursiveContainer(vt.Key(), path) {
+		return true
+	}
+	return isRecursiveContainer(vt.Elem(), path)
 }
 
 // isKeyword checks if tv is one of the keywords of tag, like "i8" or "byte" for T_i8.
